@@ -1192,3 +1192,51 @@ Definition eval_observe (scopes : list scope) (closures : list nat) (evs : list 
 
 Definition auth_eval_observe (n : nat) (evs : list aqevent) :=
   (auth_trace match_plain (ainit n) [] evs, auth_trace match_cached (ainit n) [] evs).
+
+(* ====================================================================================== *)
+(* several hooks under ONE name on one dispatcher: callbacks are built in one loop and     *)
+(* called later (Hypothesis calls .filter/.map/.flatmap callbacks at draw time)             *)
+(* ====================================================================================== *)
+(* One `for hook in get_all_by_name(name)` loop of _apply_hooks / apply_to_container builds one callback per hook that
+   _should_skip_hook lets through.  A callback is written as the hook function it RUNS when it is called at draw time.
+   The code binds the hook when the callback is built (functools.partial(hook, context)): callback i runs hook i. *)
+Definition bound_callbacks (st : state) (ctx : option oper) (fs : list N) : list N := fired st ctx fs.
+
+(* sentinel (seed C19_g): the callbacks are closures over the LOOP VARIABLE of a generator that is exhausted before the
+   first draw: every callback built for this name runs the LAST hook of the list - filtered out or not *)
+Definition bound_callbacks_late (st : state) (ctx : option oper) (fs : list N) : list N :=
+  map (fun _ => last fs 0%N) (fired st ctx fs).
+
+(* before_generate hooks are called while the strategy is built, the other three kinds at draw time *)
+Definition callbacks_late (st : state) (ctx : option oper) (k : hk) (fs : list N) : list N :=
+  match k with KBeforeGenerate => bound_callbacks st ctx fs | _ => bound_callbacks_late st ctx fs end.
+
+Definition apply_case_hooks_late (st : state) (di : nat) (o : oper) : list (hk * N) :=
+  flat_map (fun k => map (fun f => (k, f)) (callbacks_late st (Some o) k (all_by_name st di (NGen k TCase)))) kinds.
+
+Definition as_strategy_case_hooks_late (st : state) (g s : nat) (t : option nat) (o : oper) : list (hk * N) :=
+  apply_case_hooks_late st g o ++ apply_case_hooks_late st s o
+  ++ match t with Some ti => apply_case_hooks_late st ti o | None => [] end.
+
+Definition generation_hooks_late (st : state) (g s : nat) (t : option nat) (c : target) (o : oper) : list (hk * N) :=
+  if is_case_target c then as_strategy_case_hooks_late st g s t o else apply_to_all st g s t c (Some o).
+
+Fixpoint gen_trace_late (st : state) (g s : nat) (t : option nat) (evs : list event) : list (list (list (hk * N))) :=
+  match evs with
+  | [] => []
+  | EOp o :: evs' => gen_trace_late (fst (step st o)) g s t evs'
+  | EGenerate o :: evs' => map (fun c => generation_hooks_late st g s t c o) all_targets :: gen_trace_late st g s t evs'
+  end.
+
+(* the hook functions one generated case runs under kind k, in order / how often f is among them *)
+Definition of_kind (k : hk) (l : list (hk * N)) : list N :=
+  map snd (filter (fun p => hk_eqb (fst p) k) l).
+Definition count_n (f : N) (l : list N) : nat := length (filter (N.eqb f) l).
+
+(* region in which the sentinel cannot be told from the code: at most one hook per case-level name on the dispatcher *)
+Definition one_per_case_name (st : state) (di : nat) : bool :=
+  forallb (fun k => Nat.leb (length (all_by_name st di (NGen k TCase))) 1) kinds.
+
+(* what the harness evaluates (stage same_name_case_hooks) *)
+Definition same_name_observe (scopes : list scope) (closures : list nat) (t : option nat) (evs : list event) :=
+  (gen_trace (init scopes closures) 0 1 t evs, gen_trace_late (init scopes closures) 0 1 t evs).
